@@ -62,4 +62,43 @@ CLAIMED = {
              "The distribution clock is the VMarket field consumed by just_passed_in_seconds (the on-chain clock implementation is not the subject).",
         technique="Kani/CBMC symbolic execution of the real generic distribution code at reduced width against an exact reference, one inductive step",
         design="C14"),
+    "C03": dict(
+        text=BOUNDED + "the real PoolDelta::{try_new, try_from_delta_amounts, price_impact}, PriceImpactParams::adjusted_factors, utils::apply_factors "
+             "(whole-unit exponents), SwapMarketExt::swap_impact_value and PositionExt::position_price_impact. Decided: adjusted_factors returns "
+             "(min(positive, negative), negative) for every u64 pair (production width). At T=u16/DECIMALS=2: try_from_delta_amounts yields exactly "
+             "price*amount pool/delta values, |diff| before/after and the same-side/cross-over kind, and fails exactly when a value is not representable "
+             "(token prices 0..=15). At T=u8/DECIMALS=1 (UNIT 10), for every USD-value pool (long, short), every signed delta pair, every positive/negative "
+             "factor and exponent 0, 1 or 2 units: the impact value and the balance-change kind equal an exact reference (same-side: +-|f*initial^e - f*next^e| "
+             "with the capped positive factor for improvements and the negative factor otherwise; cross-over: capped_positive*initial^e - negative*next^e), "
+             "including the exact failure condition; hence a change that worsens or leaves the balance never gets a positive impact and a same-side "
+             "improvement never a negative one; apply_factors itself equals floor(v^e*f/UNIT) for exponents 0..3 units. Round trip (a change, then its exact "
+             "reverse on the resulting pool, both through the real code, exponent 1 and 2 units): total impact <= 1 unit for same-side changes and <= 0 for "
+             "cross-over changes. Virtual inventory (exponent 1 unit): swap_impact_value / position_price_impact with the virtual pool never exceed the "
+             "value without it, are equal when the real impact is >= 0 or no virtual pool exists, and fail only because of the virtual leg. Thorough adds "
+             "exponent 3 units, u16 variants and the exact min(real, virtual) value.",
+        note=_TRUST + "By-design deviations from the literal text, confirmed by the solver and excluded only inside their keyed regions: (1) an improving "
+             "change that crosses the balance point can receive a negative impact (GMX: the part past the balance point is charged the negative factor) - "
+             "c03_improved_cross_over_sign_u8, kind=finding:c03_improved_cross_over_negative; (2) a same-side round trip can total +1 unit because the two "
+             "legs floor independently - c03_round_trip_strict_same_side_u8, kind=finding:c03_round_trip_plus_one_unit (the hold harness keeps the bound "
+             "<= 1 unit, and <= 0 for cross-overs). Non-integer exponents, exponents above 3 units and widths above u8 for the impact value are outside the claim.",
+        technique="Kani/CBMC symbolic execution of the real generic price-impact code at reduced width (u64 for the comparison-only part), SAT-decided equivalence with an exact reference, two-leg round trip",
+        design="C03"),
+    "C11": dict(
+        text=BOUNDED + "the real PositionExt::{pnl_value, size_delta_in_tokens}, Price::pick_price_for_pnl, BaseMarketExt::pnl and MarketUtils::cap_pnl. Decided: "
+             "pick_price_for_pnl picks max exactly when is_long == maximize, for every u64 price pair (production width). cap_pnl at T=u16: a positive pnl is "
+             "min(pnl, floor(pool_value*max_pnl_factor_for_trader/UNIT)) for the right side, other pnl unchanged. At T=u8/DECIMALS=1 for every position "
+             "(size in usd and tokens, both sides), every price and close size: closed tokens are all tokens on a full close, else ceil (long) / floor "
+             "(short) of tokens*delta/size; with the trader cap unable to bind (empty market pools) pnl == uncapped pnl == "
+             "sign(total)*floor(closed_tokens*|total|/tokens) with total = +-(tokens*price - size) at the price picked against the trader, i.e. a partial "
+             "close realises the proportional share of the full-close pnl rounded towards zero; with every liquidity / open-interest pool and the trader "
+             "pnl factor symbolic, a full close credits total when the pool pnl is within the cap and floor(cap*total/pool_pnl) otherwise, never more than "
+             "the uncapped pnl, and losses are never capped; for two index price ranges p1 <= p2 a full close has uncapped pnl(p1) <= pnl(p2) for longs and "
+             ">= for shorts, and the same for the credited pnl wherever the cap does not bind.",
+        note=_TRUST + "By-design deviation from the literal text, confirmed by the solver: when the trader pnl cap binds, the credited pnl is "
+             "cap*total/pool_pnl and can decrease for a long as the index price rises (the pool pnl grows faster than the position's) - "
+             "c11_capped_pnl_monotone_u8, kind=finding:c11_capped_pnl_not_monotone; monotonicity of the credited pnl is asserted only where the cap does not bind. "
+             "Monotonicity for partial closes, pnl <= uncapped for partial closes under a binding cap and the two-call proportionality check are thorough-tier "
+             "harnesses (u8); u16 variants are thorough/experimental. cap_pnl is reached through the cfg hook verif_cap_pnl (9817d71).",
+        technique="Kani/CBMC symbolic execution of the real generic pnl code at reduced width (u64 for the price selection), multiplicative floor/ceil oracles, two-evaluation monotonicity",
+        design="C11"),
 }
